@@ -105,6 +105,41 @@ macro_rules! path_fam {
 				let mut got_rev: Vec<String> = p.normalized_segments().rev().map(|s| s.as_str().to_string()).collect();
 				got_rev.reverse();
 				$f.eq(C09, &format!("{tag}.normalized_segments.rev"), &got_rev, &nsegs);
+				// the normalized-segment iterator is double-ended and exact-size: alternate the two ends,
+				// the announced length drops by one per item, the consuming methods see what is left
+				{
+					let mut it = p.normalized_segments();
+					let (mut front, mut back): (Vec<String>, Vec<String>) = (vec![], vec![]);
+					let mut from_back = false;
+					let mut lens_ok = true;
+					loop {
+						let before = it.len();
+						let x = if from_back { it.next_back() } else { it.next() };
+						match x {
+							None => { lens_ok &= before == 0; break }
+							Some(s) => {
+								lens_ok &= it.len() + 1 == before;
+								if from_back { back.push(s.as_str().to_string()) } else { front.push(s.as_str().to_string()) }
+							}
+						}
+						from_back = !from_back;
+					}
+					back.reverse();
+					front.extend(back);
+					$f.eq(C09, &format!("{tag}.normalized_segments.alternating_ends"), &front, &nsegs);
+					$f.ok(C12, &format!("{tag}.normalized_segments.exact_size"), lens_ok, || json!($s));
+					if nsegs.len() >= 2 {
+						let mut it = p.normalized_segments();
+						it.next_back();
+						$f.eq(C09, &format!("{tag}.normalized_segments.partly_consumed.count"), it.count(), nsegs.len() - 1);
+						let mut it = p.normalized_segments();
+						it.next_back();
+						$f.eq(C09, &format!("{tag}.normalized_segments.partly_consumed.last"), it.last().map(|s| s.as_str().to_string()), Some(nsegs[nsegs.len() - 2].clone()));
+						let mut it = p.normalized_segments();
+						it.next();
+						$f.eq(C09, &format!("{tag}.normalized_segments.partly_consumed.nth_back"), it.nth_back(0).map(|s| s.as_str().to_string()), Some(nsegs[nsegs.len() - 1].clone()));
+					}
+				}
 				if let Some(n) = $f.run(C09, &format!("{tag}.normalized"), || p.normalized()) {
 					$f.member(C09, &format!("{tag}.normalized"), n.as_str(), &$case["normalized"]);
 					$f.ok(C04, &format!("{tag}.normalized.valid"), Path::new(n.as_str()).is_ok(), || json!(n.as_str()));
